@@ -3174,6 +3174,18 @@ impl PeerConnection {
                     state
                 )));
             }
+            // `Disconnected` with a reason other than an ICE disconnect means
+            // DTLS/SCTP ended (peer close_notify, ABORT, ...): the connection
+            // loop has exited and no reconnect will follow.
+            if state == PeerConnectionState::Disconnected
+                && let Some(reason) = self.disconnect_reason()
+                && reason != DisconnectReason::IceDisconnected
+            {
+                return Err(RtcError::Internal(format!(
+                    "Peer connection ended: {}",
+                    reason
+                )));
+            }
             if peer_state_rx.changed().await.is_err() {
                 return Err(RtcError::Internal("Peer state channel closed".into()));
             }
